@@ -384,6 +384,7 @@ SysProgs2 == <<
   <<TryE(GAsg(NegB), TryF(Ret(AddAB), Ret(A)))>>,
   <<Nd("tryexc", "e", <<GAsg(NegB), TryF(Ret(AddAB), IfS(B, PassS, Ret(A)))>>)>>,
   <<WithS("", A, TryF(Ret(AddAB), Ret(NegB)))>>,
+  <<IfS(E1("not", E2("fstr", A, B)), Ret(A), Ret(NegB))>>,
   <<IfS(B, Asg("y", A), PassS), TryF(ExprS(E1("neg", Y)), Ret(A))>>,
   <<TryF(TryF(Ret(AddAB), GAsg(NegB)), GAsg(E1("neg", A)))>>,
   <<TryF(Ret(AddAB), WithS("x", A, GAsg(X)))>>,
